@@ -267,7 +267,7 @@ TIERS = {
 
 
 def run_check(prop, tier, verif_seed, n_runs=None, budget=None, workers=None,
-              quiet=False):
+              quiet=False, survey=False):
     from simkit import boot
     boot.boot()
     eng = engine_for(prop)
@@ -298,6 +298,19 @@ def run_check(prop, tier, verif_seed, n_runs=None, budget=None, workers=None,
     records.sort(key=lambda r: r["idx"])
     wall_search = time.time() - t0
 
+    if survey:
+        hist = {}
+        for r in records:
+            if "harness" in r:
+                k = ("HARNESS", r["harness"].splitlines()[0][:150])
+                hist.setdefault(k, [0, r["idx"], r["harness"][-1500:]])[0] += 1
+            for v in (r.get("summary") or {}).get("violations", []):
+                k = (v["class"], canon(v["sig"]))
+                hist.setdefault(k, [0, r["idx"], v["detail"]])[0] += 1
+        print("survey %s: %d runs in %.1fs" % (prop, len(records), wall_search))
+        for k, (n, idx, det) in sorted(hist.items(), key=lambda kv: -kv[1][0]):
+            print("%5d  %s %s\n        idx=%d %s" % (n, k[0], k[1], idx, det[:700]))
+        return 0
     known = load_known()
     agg = aggregate(prop, tier, verif_seed, records)
     for r in records:
@@ -487,6 +500,7 @@ def main(argv=None):
     ap.add_argument("--workers", type=int)
     ap.add_argument("--selftest")
     ap.add_argument("--one", type=int, help="run a single index verbosely")
+    ap.add_argument("--survey", action="store_true", help="histogram of violation classes")
     a = ap.parse_args(argv)
     verif_seed = int(os.environ.get("VERIF_SEED", "0"))
     if a.selftest:
@@ -509,4 +523,5 @@ def main(argv=None):
         print(err or json.dumps(summ, indent=1, default=str)[:6000])
         return 0
     tier = a.tier if a.tier in ("quick", "thorough") else "quick"
-    return run_check(a.prop, tier, verif_seed, a.runs, a.budget, a.workers)
+    return run_check(a.prop, tier, verif_seed, a.runs, a.budget, a.workers,
+                     survey=a.survey)
